@@ -1,6 +1,6 @@
 (* C01 correspondence harness: the Python driver writes observed implementation behaviour as [case] terms,
    [chk] evaluates the SAME model definitions the theorems are about (vm_compute). *)
-From Miller Require Import Base.Bytes Base.Record C01.Model C01.ModelJson C01.ModelXtab C01.ModelLite.
+From Miller Require Import Base.Bytes Base.Record C01.Model C01.ModelJson C01.ModelXtab C01.ModelLite C01.ModelPprint C01.ModelMd.
 Open Scope char_scope.
 
 (* compact literals for the generated case files: bytes as a hex string (parses much faster than a list of numbers) *)
@@ -32,7 +32,7 @@ Definition obytes_eqb (a b : option bytes) : bool :=
 Definition orecs_eqb (a b : option (list record)) : bool :=
   match a, b with Some x, Some y => records_eqb x y | None, None => true | _, _ => false end.
 
-(* formats: 0 tsv, 1 dkvp, 2 nidx, 3 csv, 4 json, 5 xtab, 6 csvlite, 7 pprint *)
+(* formats: 0 tsv, 1 dkvp, 2 nidx, 3 csv, 4 json, 5 xtab, 6 csvlite, 7 pprint, 8 markdown *)
 Definition model_write (fmt : N) (f : list bool) (s : list bytes) (recs : list record) : option bytes :=
   match fmt with
   | 0%N => write_tsv (fl f 0) (fl f 1) recs
@@ -58,8 +58,13 @@ Definition model_read (fmt : N) (f : list bool) (s : list bytes) (text : bytes) 
   (* JSON: the RFC-8259 reference covers flat objects with string members; anything else is not compared *)
   | 4%N => match read_json_ref text with None => None | Some r => Some (Some r) end
   | 5%N => Some (read_xtab (sp s 0) (fl f 0) text)
-  | 6%N => Some (read_csvlite (sp s 0) (fl f 0) (fl f 1) text)
-  | 7%N => Some (read_pprint (fl f 0) (fl f 1) text)
+  (* csvlite: dedupe, ragged, implicit header *)
+  | 6%N => Some (if fl f 2 then read_csvlite_implicit (sp s 0) (fl f 0) (fl f 1) text else read_csvlite (sp s 0) (fl f 0) (fl f 1) text)
+  (* PPRINT: dedupe, ragged, barred input, implicit header *)
+  | 7%N => Some (if fl f 2 then read_pprint_barred (fl f 3) (fl f 0) (fl f 1) text
+                 else if fl f 3 then read_pprint_implicit (fl f 0) (fl f 1) text else read_pprint (fl f 0) (fl f 1) text)
+  (* markdown: dedupe, ragged, (unused), implicit header *)
+  | 8%N => Some (read_markdown (fl f 3) (fl f 0) (fl f 1) text)
   | _ => Some None
   end.
 
@@ -71,7 +76,10 @@ Fixpoint width_of (t : list (bytes * N)) (s : bytes) : nat :=
 Definition model_write_w (fmt : N) (f : list bool) (s : list bytes) (t : list (bytes * N)) (recs : list record) : option bytes :=
   match fmt with
   | 5%N => Some (write_xtab (width_of t) (sp s 0) (fl f 0) recs)
-  | 7%N => Some (write_pprint (width_of t) (fl f 0) (fl f 1) recs)
+  (* PPRINT: headerless, crlf, --right, --barred *)
+  | 7%N => Some (write_pprint_g (width_of t) (fl f 2) (fl f 3) (fl f 0) (fl f 1) recs)
+  (* markdown: aligned, crlf *)
+  | 8%N => Some (write_markdown (width_of t) (fl f 0) (fl f 1) recs)
   | _ => None
   end.
 
